@@ -1,11 +1,11 @@
 (* C19 - drain_into takes everything available, in order, and reports it exactly.
-   The caller's vector (previous contents, spare capacity, the `reserve` arithmetic) is outside
-   the model: the model returns the list appended; that the previous contents are untouched and
-   the count equals the number appended on the real crate is checked by H1 (vectors with 0-2
-   previous elements and 0-3 spare places) and H2. *)
+   The channel side is `Atomic.step_drain`; the caller's vector (previous contents, spare capacity,
+   the `reserve` arithmetic in checked usize, pushes that may reallocate under any growth policy) is
+   `Vec.drain_into_vec`.  H1 runs the crate with vectors of 0-2 previous elements and 0-3 spare
+   places and compares (count, values appended, previous contents intact) with the model. *)
 From Coq Require Import String.
-From KV Require Import Base Chan Atomic.
-From KV.proofs Require Import Inv StepInv Fifo Drain LockDiscipline.
+From KV Require Import Base Chan Atomic Vec.
+From KV.proofs Require Import Inv StepInv Fifo Drain VecDrain LockDiscipline.
 
 (* on an open channel: appends exactly the pending sequence (buffer, then every blocked or pending
    sender, oldest first), returns its length, leaves nothing behind, destroys / hands back nothing *)
@@ -15,6 +15,22 @@ Theorem c19_takes_everything_in_order_and_counts_it : forall a h,
     step_drain a h = (a', mkOut (RDrain (len (pending a)) (pending a)) [] ws []) /\
     pending a' = [] /\ queue (ch a') = [].
 Proof. exact drain_spec. Qed.
+
+(* channel and vector together, for every vector, every allocator growth policy and every reachable
+   configuration: no usize underflow, the previous contents stay where they were, exactly the pending
+   sequence is appended in order, and the count returned is the growth of the vector *)
+Theorem c19_vector_keeps_previous_contents_and_count_is_number_appended : forall grow a h v,
+  grows_enough grow -> vec_ok v ->
+  Inv a -> is_side a h SRecv = true -> recv_count (ch a) <> 0%N ->
+  exists a' ws n ys v',
+    step_drain a h = (a', mkOut (RDrain n ys) [] ws []) /\
+    drain_into_vec grow v n ys = Some (v', n) /\
+    ys = pending a /\
+    v_items v' = (v_items v ++ pending a)%list /\
+    (len (v_items v') = len (v_items v) + n)%N /\
+    firstn (length (v_items v)) (v_items v') = v_items v /\
+    pending a' = [] /\ vec_ok v'.
+Proof. exact drain_into_whole. Qed.
 
 Theorem c19_releases_each_sender_with_success : forall a h k o,
   Inv a -> is_side a h SRecv = true -> recv_count (ch a) <> 0%N -> recv_blocking (ch a) = false ->
@@ -33,6 +49,7 @@ Theorem c19_never_blocks :
 Proof. split; [exact nonblocking_never_wait|exact lock_discipline_holds]. Qed.
 
 Print Assumptions c19_takes_everything_in_order_and_counts_it.
+Print Assumptions c19_vector_keeps_previous_contents_and_count_is_number_appended.
 Print Assumptions c19_releases_each_sender_with_success.
 Print Assumptions c19_closed_channel_takes_nothing.
 Print Assumptions c19_never_blocks.
